@@ -892,7 +892,7 @@ func scanStartDelay(p *Prog, r *Report, fn *ssa.Function, depth int) (dTerms []P
 	if len(rets) == 1 && depth < 2 {
 		if call, ok := rets[0].Results[0].(*ssa.Call); ok {
 			h := call.Call.StaticCallee()
-			if isModuleFn(h) && h.Signature.Recv() != nil && len(call.Call.Args) == 2 && call.Call.Args[0] == ssa.Value(fn.Params[0]) && len(h.Params) == 2 && isIntLike(h.Params[1].Type()) {
+			if isModuleFn(h) && h.Signature.Recv() != nil && len(call.Call.Args) == 2 && resolveCell(call.Call.Args[0]) == ssa.Value(fn.Params[0]) && len(h.Params) == 2 && isIntLike(h.Params[1].Type()) {
 				r.Fn(FuncName(h))
 				hTerms, hdesc, hmsg := scanStartDelay(p, r, h, depth+1)
 				if hmsg != "" {
